@@ -301,3 +301,112 @@ def check(programs, init, skeleton, nback=3, timeout_ms=60000, force_serial=Fals
         pcs[t] += 1
     obs = {f"{t}.{i}": {"selected": m.eval(obs_sel[(t, i)], model_completion=True).as_long(), "fail": bool(z3.is_true(m.eval(obs_fail[(t, i)], model_completion=True)))} for (t, i) in obs_sel}
     return r, {"schedule": trace, "observations": obs}, stats
+
+
+# ---------------------------------------------------------------------------------------------------
+# tracing context stack (tracer/graph.py: depend_on / get_additional_dependencies)
+
+
+def extract_context_stacks(path="/repo/einx/_src/tracer/graph.py"):
+    """From the AST: module-level objects that functions of the module use as a stack through an attribute
+    (`X.stack.append/pop`, iteration), how X is constructed, and whether that attribute is per-thread by
+    construction: X = threading.local() (or a subclass instance) AND the attribute is only ever created by
+    assignment on the instance inside a function. A class-level attribute of a threading.local subclass, a plain
+    object, or a module-level list is ONE object for all threads."""
+    import ast
+
+    tree = ast.parse(open(path).read())
+    classes = {n.name: n for n in tree.body if isinstance(n, ast.ClassDef)}
+    objs = {}
+    for node in tree.body:
+        if isinstance(node, ast.Assign) and len(node.targets) == 1 and isinstance(node.targets[0], ast.Name):
+            name = node.targets[0].id
+            v = node.value
+            if isinstance(v, ast.Call):
+                objs[name] = {"ctor": ast.unparse(v.func), "attrs": {}}
+            elif isinstance(v, (ast.List, ast.Dict, ast.Set)):
+                objs[name] = {"ctor": type(v).__name__, "attrs": {}}
+    for fn in ast.walk(tree):
+        if not isinstance(fn, (ast.FunctionDef, ast.AsyncFunctionDef)):
+            continue
+        for n in ast.walk(fn):
+            if isinstance(n, ast.Attribute) and isinstance(n.value, ast.Name) and n.value.id in objs:
+                rec = objs[n.value.id]["attrs"].setdefault(n.attr, {"assigned_in_function": False, "mutated": False, "read": False})
+                if isinstance(n.ctx, ast.Store):
+                    rec["assigned_in_function"] = True
+                else:
+                    rec["read"] = True
+            if isinstance(n, ast.Call) and isinstance(n.func, ast.Attribute) and n.func.attr in ("append", "pop", "extend", "insert", "clear"):
+                tgt = n.func.value
+                if isinstance(tgt, ast.Attribute) and isinstance(tgt.value, ast.Name) and tgt.value.id in objs:
+                    objs[tgt.value.id]["attrs"].setdefault(tgt.attr, {"assigned_in_function": False, "mutated": False, "read": False})["mutated"] = True
+                if isinstance(tgt, ast.Name) and tgt.id in objs:
+                    objs[tgt.id]["attrs"].setdefault("<self>", {"assigned_in_function": False, "mutated": False, "read": False})["mutated"] = True
+    out = {}
+    for name, o in objs.items():
+        for attr, rec in o["attrs"].items():
+            if not rec["mutated"]:
+                continue
+            ctor = o["ctor"]
+            local_base = ctor == "threading.local"
+            class_attr = False
+            if ctor in classes:
+                cls = classes[ctor]
+                local_base = any(ast.unparse(b) in ("threading.local", "local") for b in cls.bases)
+                for st in cls.body:
+                    if isinstance(st, ast.Assign) and any(isinstance(t, ast.Name) and t.id == attr for t in st.targets):
+                        class_attr = True
+                    if isinstance(st, ast.AnnAssign) and isinstance(st.target, ast.Name) and st.target.id == attr and st.value is not None:
+                        class_attr = True
+            per_thread = bool(local_base and rec["assigned_in_function"] and not class_attr and attr != "<self>")
+            out[f"{name}.{attr}"] = {"object": name, "attr": attr, "constructed_by": ctor, "threading_local": local_base, "class_level_attribute": class_attr, "created_per_thread_in_function": rec["assigned_in_function"], "per_thread": per_thread}
+    return out
+
+
+def context_stack_check(per_thread, timeout_ms=30000):
+    """Two threads, each running one whole einx call that does  push(own deps); read; pop  on the tracing
+    context stack. The schedule is a vector of symbolic thread ids. Serial orders (whole calls) let every read
+    see exactly the reader's own entry; z3 searches for a schedule in which some read sees anything else.
+    per_thread=True: each thread has its own stack (what threading.local gives); False: one shared stack."""
+    import time
+
+    import z3
+
+    nsteps = 6
+    sched = [z3.Int(f"cs_sched{i}") for i in range(nsteps)]
+    s = z3.Solver()
+    s.set("timeout", timeout_ms)
+    for x in sched:
+        s.add(z3.Or(x == 0, x == 1))
+    for t in (0, 1):
+        s.add(z3.Sum([z3.If(x == t, 1, 0) for x in sched]) == 3)
+    # state: per stack a length and two slots holding the id of the pushing thread
+    nst = 2 if per_thread else 1
+    length = [z3.IntVal(0) for _ in range(nst)]
+    slot = [[z3.IntVal(-1), z3.IntVal(-1)] for _ in range(nst)]
+    pc = [z3.IntVal(0), z3.IntVal(0)]
+    bad = []
+    for i in range(nsteps):
+        t = sched[i]
+        new_length, new_slot, new_pc = list(length), [list(x) for x in slot], list(pc)
+        for tt in (0, 1):
+            k = tt if per_thread else 0
+            here = t == tt
+            is_push, is_read, is_pop = z3.And(here, pc[tt] == 0), z3.And(here, pc[tt] == 1), z3.And(here, pc[tt] == 2)
+            # read: the visible stack must be exactly [tt]
+            sees_other = z3.Or(length[k] != 1, slot[k][0] != tt)
+            bad.append(z3.And(is_read, sees_other))
+            new_slot[k][0] = z3.If(z3.And(is_push, length[k] == 0), tt, new_slot[k][0])
+            new_slot[k][1] = z3.If(z3.And(is_push, length[k] == 1), tt, new_slot[k][1])
+            new_length[k] = z3.If(is_push, new_length[k] + 1, z3.If(is_pop, new_length[k] - 1, new_length[k]))
+            new_pc[tt] = z3.If(here, pc[tt] + 1, new_pc[tt])
+        length, slot, pc = new_length, new_slot, new_pc
+    s.add(z3.Or(*bad))
+    t0 = time.time()
+    r = str(s.check())
+    dt = time.time() - t0
+    schedule = None
+    if r == "sat":
+        m = s.model()
+        schedule = [m.eval(x, model_completion=True).as_long() for x in sched]
+    return r, schedule, {"solver_s": dt, "steps": nsteps, "threads": 2, "per_thread": per_thread}
